@@ -5,13 +5,13 @@ open CaddyModel.C14
 #print axioms reachable_invariant
 #print axioms recovery
 #print axioms recovery_after_interrupted_creation
+#print axioms provision_alone_consistent
 #print axioms root_stable
 #print axioms intermediate_stable_until_renewal
 -- renewal at run time (maintenance pass of a running process)
 #print axioms tick_keeps_invariant
 #print axioms reachable_invariant_with_ticks
-#print axioms recovery_with_runtime_renewal_partial
-#print axioms synced_after_uninterrupted_startup
+#print axioms recovery_with_runtime_renewal
 -- config autosave
 #print axioms autosave_always_complete
 #print axioms autosave_latest_after_return
@@ -26,7 +26,7 @@ open CaddyModel.C14
 #print axioms autosave_old_style_fails
 #print axioms autosave_excl_wedged
 #print axioms autosave_excl_fails
-#print axioms recovery_with_runtime_renewal_full_fails
-#print axioms provision_alone_after_interrupted_renewal_mismatched
+#print axioms recovery_with_runtime_renewal_old_code_fails
+#print axioms provision_alone_after_interrupted_renewal_mismatched_old_code
 #print axioms ca_write_order_matches_source
 #print axioms autosave_program_matches_source
